@@ -164,6 +164,8 @@ class STok:
             else:
                 raise IndexError(f"index {sl!r} on an abstract block of shape {self.shape}")
         shape += dims[i:]
+        if all(d is None or (isinstance(d, tuple) and d == (None, None, None)) for d in desc):
+            return self.reshape(tuple(shape))  # only new unit axes: a reshape
         if plain:
             n = self._restrict(tuple(desc))
             if n is not None:
@@ -231,8 +233,10 @@ class STok:
         t = self.term
         if isinstance(t, tuple) and t and t[0] == "zeros":
             return STok(("zeros", out), out)
-        if isinstance(t, tuple) and t and t[0] in ("concat", "placed") and len(out) > len(self.shape):
-            n_ = self._split_axis(out)
+        if isinstance(t, tuple) and t and t[0] in ("concat", "placed"):
+            n_ = self._unit_axes(out)
+            if n_ is None and len(out) > len(self.shape):
+                n_ = self._split_axis(out)
             if n_ is not None:
                 return n_
         if isinstance(t, tuple) and t and t[0] == "reshape" and len(t) == 4:
@@ -240,6 +244,32 @@ class STok:
                 return STok(t[1], out)  # reshaped back
             return STok(("reshape", t[1], tuple(shape) if -1 in shape else out, t[3]), out)
         return STok(("reshape", t, tuple(shape), self.shape), out)
+
+    def _unit_axes(self, out):
+        """reshape of a structured block that only inserts / removes axes of size one: pushed into the pieces"""
+        from .layout import LayoutError, placements
+
+        shape = self.shape
+        if [d for d in shape if d != 1] != [d for d in out if d != 1]:
+            return None
+        try:
+            pcs = placements(self.term, shape)
+        except LayoutError:
+            return None
+        items = []
+        for w, src_ in pcs.items():
+            core = [win for win, d in zip(w, shape) if d != 1]
+            nw, k = [], 0
+            for d in out:
+                if d == 1:
+                    nw.append((0, 1))
+                else:
+                    nw.append(core[k])
+                    k += 1
+            pshape = tuple(b - a for a, b in w)
+            nshape = tuple(b - a for a, b in nw)
+            items.append((tuple(nw), STok(src_, pshape).reshape(nshape).term))
+        return STok(("placed", tuple(out), tuple(sorted(items, key=repr))), out)._simplified()
 
     def _split_axis(self, out):
         """reshape that splits one axis of a structured block whose pieces all span that axis: pushed into the pieces"""
